@@ -92,6 +92,8 @@ RULE = ("Real kvarn::handle_connection on loopback TCP pairs, TLS by a rustls Se
         "complete wire answers (version, every header incl. content-length / connection / alt-svc) equal the extracted model "
         "send H1 / send H2. The layer-4 response of every request (kvarn::handle_cache's CacheReply) and the host's 416 page are "
         "observed in process on a third identical fresh host running the same history (proto.l4) and are inputs of model and spec. "
+        "proto.server: a sample of the histories through two complete servers started by RunConfig::execute on loopback ports "
+        "(listener, accept loop, TLS + ALPN, connection tasks, graceful shutdown), same model and oracles. "
         "(2) proto.burst: 2-32 requests sent AT ONCE as streams of one HTTP/2 connection to one fresh host: H_slow handlers sleeping a "
         "seeded 0-250 ms (x-delay header) so that handlers finish in a seeded order unrelated to the stream order, several streams per "
         "page, cacheable and uncacheable pages, cache on/off, HEAD, ranges, Accept-Encoding, files, 404s and POST echo with a distinct "
@@ -152,6 +154,7 @@ LEVEL_NOTE = ("Trusted: Coq kernel; extraction (sample re-checked in-kernel); th
 TECHNIQUE = ("Coq proof (equality up to an explicit header filter; inductive invariant over all schedules, reusing C03's simulation) + "
              "differential correspondence over real TLS connections with both protocols")
 
+PAIRS = ("proto.pair", "proto.server")
 ALT = b'h3=":8443";ma=2592000'
 HOP = {b"connection", b"keep-alive", b"proxy-connection", b"transfer-encoding", b"upgrade", b"te", b"content-length", b"alt-svc"}
 
@@ -383,6 +386,20 @@ def mini_cfg(cache, pkg):
                   xl(xb("pkg"), xlist([xl(xz(p), xn(k), xb(n), xb(v)) for p, k, n, v in pkg]))])
 
 
+def gen_servers(rng, n):
+    """a sample of the histories through complete servers: RunConfig::execute on loopback ports (listener, accept loop, ALPN)"""
+    plans = []
+    for i in range(n):
+        h = DIRECTED_HISTORIES[i % len(DIRECTED_HISTORIES)] if i < 4 else history(rng)
+        plans.append((i % 2 == 0, PKG_MENUS[i % len(PKG_MENUS)], h, i % 3 != 1))
+    jobs = [(host_cfg(c, pkg), h, 0) for c, pkg, h, _ in plans]
+    prs = probe(jobs)
+    cases = [pair_case(job[0], pkg, h, pr, s1, "server") for (c, pkg, h, s1), job, pr in zip(plans, jobs, prs)]
+    for c in cases:
+        c.comp = "proto.server"
+    return cases
+
+
 def gen_mini(rng, n):
     """small cases (these are the ones the in-kernel recheck of the extracted model can afford)"""
     plans = []
@@ -476,9 +493,9 @@ def gen_bursts(rng, sizes, kind="burst"):
 
 def generate(rng, tier):
     if tier == "thorough":
-        cases = gen_pairs(rng, 1600) + gen_mini(rng, 100) + gen_known(rng) + gen_bursts(rng, [2, 3, 4, 6, 8, 12, 16, 24, 32] * 16 + [32] * 6)
+        cases = gen_pairs(rng, 1600) + gen_servers(rng, 40) + gen_mini(rng, 100) + gen_known(rng) + gen_bursts(rng, [2, 3, 4, 6, 8, 12, 16, 24, 32] * 16 + [32] * 6)
     else:
-        cases = gen_pairs(rng, 50) + gen_mini(rng, 16) + gen_known(rng) + gen_bursts(rng, [2, 3, 5, 9, 16, 24, 32])
+        cases = gen_pairs(rng, 50) + gen_servers(rng, 6) + gen_mini(rng, 16) + gen_known(rng) + gen_bursts(rng, [2, 3, 5, 9, 16, 24, 32])
     return cases
 
 
@@ -541,7 +558,7 @@ def spec_ok(c, i, s):
         return False
     if c.comp == "proto.answered":
         return iv == sv
-    if c.comp == "proto.pair":
+    if c.comp in PAIRS:
         if iv[0] != "L" or len(iv[1]) != len(sv[1]) or (iv[1] and iv[1][0][0] == "N"):
             return False
         for e, sp in zip(iv[1], sv[1]):
@@ -558,7 +575,7 @@ def spec_ok(c, i, s):
 
 def extra_oracle(c, i):
     """parity itself, on the implementation's output only"""
-    if c.comp != "proto.pair":
+    if c.comp not in PAIRS:
         return None
     try:
         iv = kv.xparse(i)
@@ -612,10 +629,11 @@ def signature(c, m):
 
 
 def extra_coverage(cases, impl, model, spec):
-    pairs = [c for c in cases if c.comp == "proto.pair"]
+    pairs = [c for c in cases if c.comp in PAIRS]
     bursts = [c for c in cases if c.comp in ("proto.burst", "proto.burst1")]
     return {"histories_through_both_protocols": len(pairs),
             "requests_through_both_protocols": sum(len(c.x[1][5][1]) for c in pairs),
+            "histories_through_complete_servers_(RunConfig::execute)": len([c for c in cases if c.comp == "proto.server"]),
             "bursts": len(bursts),
             "concurrent_streams": sum(c.meta.get("streams", 0) for c in bursts),
             "max_streams_in_one_burst": max([c.meta.get("streams", 0) for c in bursts] or [0]),
